@@ -8,6 +8,7 @@ import (
 	"math"
 	"math/big"
 	"sort"
+	"strings"
 
 	"github.com/Syuparn/pangaea/object"
 
@@ -30,6 +31,7 @@ func init() {
 		Level: "model_checking",
 		Rule: "every operand pair of the bounded domain ([-B,B]^2, boundary-set^2, power table a in [-20,20] x b in [0,70]) x operators " +
 			"{+,-,*,//,%,**,/,<=>,unary -} is evaluated on the real built-ins (direct call and through parsed source) and compared with math/big; " +
+			"the source pass is preceded and followed, in the same process, by every operator applied to an instance of an Int descendant that overrides them all (history: who used an operator first); " +
 			"a case is non-trivial when the oracle defines its result (exact result fits in int64 / zero divisor); distinct = distinct (op,a,b,mode)",
 		Assumptions: []string{
 			"math/big and strconv are correct",
@@ -338,6 +340,12 @@ func run(c *core.Ctx) {
 			e.checkDirect("**", a, b)
 		}
 	}
+	// --- history: a descendant of Int that redefines every operator is used BEFORE and AFTER the plain ints of the
+	// source pass in this process (the meaning of an operator for plain ints must not depend on who used it first)
+	if !e.descendants("before the source pass") {
+		return
+	}
+	defer e.descendants("after the source pass")
 	// --- source pass
 	c.Sample(map[string]interface{}{"source_case": srcOf(tcase{Op: "//", A: -1, B: 2}), "oracle": "math/big floor quotient -1"})
 	const batch = 2000
@@ -352,6 +360,28 @@ func run(c *core.Ctx) {
 		}
 		e.runSource(srcCases[i:j])
 	}
+}
+
+const descendantSrc = `P := Int.bear({'+: m{|o| 'ov}, '-: m{|o| 'ov}, '*: m{|o| 'ov}, '/: m{|o| 'ov}, '//: m{|o| 'ov}, '%: m{|o| 'ov}, '**: m{|o| 'ov}, '<=>: m{|o| 'ov}, '-%: m{'ov}, '+%: m{'ov}})
+p := P.new(70)
+[p + 50, p - 50, p * 2, p / 2, p // 2, p % 3, p ** 2, p <=> 1, -p, +p, p.+(1), [p]$(P.new(0))+]`
+
+// descendants evaluates the operators on an instance of an Int descendant that overrides them all.
+func (e *env) descendants(when string) bool {
+	o := e.c.R().EvalSrc(descendantSrc, "")
+	e.c.Eval(1)
+	e.c.Validated(1)
+	e.c.Nontrivial(1)
+	want := `["ov", "ov", "ov", "ov", "ov", "ov", "ov", "ov", "ov", "ov", "ov", "ov"]`
+	if o.Kind == "syntax" {
+		e.c.HarnessError("descendant program does not parse: %s", o.ErrMsg)
+		return false
+	}
+	if o.Kind != "value" || o.Repr != want {
+		e.c.Violation(core.Violation{Key: "history/descendant-operators/" + strings.ReplaceAll(when, " ", "-"), Case: core.JSON(tcase{Op: "descendant", Mode: when}), Desc: "operators overridden by an Int descendant, " + when,
+			Expected: want, Observed: o.Short(), Repro: descendantSrc + ".p\n"})
+	}
+	return true
 }
 
 func (e *env) runSource(cases []tcase) {
@@ -390,6 +420,10 @@ func replay(c *core.Ctx, raw json.RawMessage) {
 		return
 	}
 	e := newEnv(c)
+	if t.Op == "descendant" {
+		e.descendants(t.Mode)
+		return
+	}
 	if t.Mode == "source" {
 		e.runSource([]tcase{t})
 		return
